@@ -61,7 +61,9 @@ def _run_batch(args):
             for d in divs:
                 lo, lr = V.last_call_before(raw, d.get("line", 1), with_res=True)
                 ctx = {"last_op": lo, "last_res_ok": lr}
-                d["props"] = sorted(V.classify(d, ctx))
+                # opts["also"]: properties every divergence of this batch speaks about in addition
+                # (e.g. a cache written by the reference and read by the library: C17)
+                d["props"] = sorted(V.classify(d, ctx) | set(opts.get("also") or ()))
                 d["last_op"] = ctx["last_op"]
             if info.get("invariant"):
                 divs.append({"what": "invariant", "name": info["invariant"],
